@@ -546,32 +546,66 @@ def disjoint(f, g):
     return f["off"] + f["width"] <= g["off"] or g["off"] + g["width"] <= f["off"]
 
 
-def alt_mechs(B, t, dest, x, raw, export=False, xraw=None, post=None):
-    """Registers with alternative widths: name the recorded mechanisms that apply to writing x into target t of a file in
-    state `dest` (and, with export=True, to exporting the raw value xraw big-endian); 'unexplained' when none applies."""
+DEFECT_NAMES = {"F1": "reversed-value-selects-another-width", "F3": "reversed-sub-order-positions-follow-alt-width",
+                "F4": "big-endian-export-pads-short-value-at-the-end"}
+
+
+def alt_outcome(B, t, x, raw, defects):
+    """(raw view, value view) of the top-level register t after set_value(x, raw) when exactly the recorded defects in
+    `defects` are present (empty set: the behaviour the property demands).  None when that combination cannot occur."""
     r = B["regs"][t[0]]
-    T = target(B, t)
-    alts = T["alt"] if len(t) == 2 else r["alt"]
-    w = T["width"]
-    m = []
-    if x is not None and 0 <= x < (1 << w):
-        a = alt_of(w, alts, x)
-        if T["reverse"] and not raw:
-            if alt_of(w, alts, byterev(x, a // 8)) != a:
-                m.append("reversed-value-selects-another-width")
-        if len(t) == 1 and r["subs"]:
-            if r["rev_sub"] and a != w:
-                m.append("reversed-sub-order-positions-follow-alt-width")
-            sw = r["subs"][0]["width"]
-            # repaired in /repo (finding C11-F2): sub-registers above the selected width must read 0 after the write;
-            # reported again (as a violation) when old contents survive there
-            up = range(a // sw, len(r["subs"]))
-            if a < w and dest is not None and any(is_int(dest.raw((t[0], j))) and dest.raw((t[0], j)) != 0 for j in up) \
-                    and (post is None or any(post.raw((t[0], j)) != 0 for j in up)):
-                m.append("upper-sub-registers-keep-old-value")
-    if export and B["big"] and xraw is not None and is_int(xraw) and alt_of(w, alts, xraw) < w:
-        m.append("big-endian-export-pads-short-value-at-the-end")
-    return ",".join(sorted(m)) or "unexplained"
+    w, alts = r["width"], r["alt"]
+    if not (0 <= x < (1 << w)):
+        return None
+    a = alt_of(w, alts, x)
+    y = byterev(x, a // 8) if (r["reverse"] and not raw) else x
+    if r["subs"]:
+        sw = r["subs"][0]["width"]
+        n, c = a // sw, 0
+        for j in range(len(r["subs"])):
+            if j >= n:
+                continue                                   # cleared sub-registers contribute nothing
+            pw = (a - (j + 1) * sw) if r["rev_sub"] else j * sw
+            pr = (((w if "F3" in defects else a) - (j + 1) * sw) if r["rev_sub"] else j * sw)
+            c |= ((y >> pw) & ((1 << sw) - 1)) << pr
+    else:
+        c = y
+    if c >= (1 << w):
+        return None
+    a2 = alt_of(w, alts, c) if ("F1" in defects or raw) else a
+    if r["reverse"]:
+        if c >= (1 << a2):
+            return None
+        return (c, byterev(c, a2 // 8))
+    return (c, c)
+
+
+def alt_label(B, t, x, raw, obs_raw, obs_log, export=False):
+    """Registers with alternative widths: which recorded defects produce EXACTLY the observed outcome of writing x?
+    The label is keyed on the outcome (both views of the register after the write), never on the input class:
+    an outcome that no combination of recorded defects predicts is 'unexplained' and is reported as a violation."""
+    if len(t) != 1 or x is None or not (is_int(obs_raw) and is_int(obs_log)):
+        return "unexplained"
+    r = B["regs"][t[0]]
+    w = r["width"]
+    if not (0 <= x < (1 << w)):
+        return "unexplained"
+    cand = [d for d, on in (("F1", r["reverse"]), ("F3", bool(r["subs"]) and r["rev_sub"]), ("F4", export and B["big"])) if on]
+    ideal = alt_outcome(B, t, x, raw, set())
+    subsets = [[]]
+    for d in cand:
+        subsets += [s_ + [d] for s_ in subsets]
+    for ds in sorted(subsets[1:], key=len):
+        v = x
+        if "F4" in ds:
+            a = alt_of(w, r["alt"], x)
+            if a >= w:
+                continue
+            v = x << (w - a)
+        pred = alt_outcome(B, t, v, raw, set(ds))
+        if pred is not None and pred != ideal and pred == (obs_raw, obs_log):
+            return ",".join(sorted(DEFECT_NAMES[d] for d in ds))
+    return "unexplained"
 
 
 def view_checks(B, S, where):
@@ -609,6 +643,16 @@ def view_checks(B, S, where):
             if log != want:
                 out.append((f"reverse-view:{cls}", f"{where}: {T['name']}.get_value() is {log:#x}, expected {want:#x} "
                             f"({'byte reversal of ' if T['reverse'] else ''}the stored value {base_log:#x})"))
+        elif not T["reverse"]:
+            if log != base_log:
+                out.append((f"reverse-view:{cls}", f"{where}: {T['name']} is not reversed but get_value() is {log:#x}, stored {base_log:#x}"))
+        else:
+            # reversed with alternative widths: the value view is the byte reversal of the stored value within the register
+            # width or one of the alternative widths that hold it
+            ok_views = {byterev(base_log, a_ // 8) for a_ in list(T["alt"]) + [T["width"]] if a_ % 8 == 0 and base_log < (1 << a_)}
+            if log not in ok_views:
+                out.append((f"reverse-view:{cls}", f"{where}: {T['name']}.get_value() {log:#x} is not a byte reversal of the stored "
+                            f"value {base_log:#x} within the width or an alternative width"))
         for k, f in enumerate(T["fields"]):
             fv = S.fields(t)[k]
             want = field_post(f, bits(log, f["off"], f["width"]))
@@ -649,7 +693,7 @@ def check_write_int(B, before, after, out, t, x, raw, parsed_ok, what, sig_base)
     if got != x:
         why = ""
         if "alt-widths" in cls:
-            why = ":" + alt_mechs(B, t, before, x, raw, post=after)
+            why = ":" + alt_label(B, t, x, raw, after.raw(t), after.log(t))
         res.append((f"{sig_base}-readback:{cls}{why}", f"{what}: wrote {x:#x}, get_value({'raw' if raw else ''}) returns "
                     f"{got if not is_int(got) else hex(got)}"))
     return res
@@ -715,7 +759,7 @@ def oracle_case(B, ops, snap0, trace):
                     if "alt-widths" in cls:
                         base = before.raw(t) if raw else before.log(t)
                         m = ((1 << f["width"]) - 1) << f["off"]
-                        cls += ":" + alt_mechs(B, t, before, ((base & ~m) | (p << f["off"])) if is_int(base) else None, raw, post=after)
+                        cls += ":" + alt_label(B, t, ((base & ~m) | (p << f["off"])) if is_int(base) else None, raw, after.raw(t), after.log(t))
                     if got != field_post(f, p):
                         here.append((f"field-readback:{cls}", f"{what}: field reads {got}, written {field_post(f, p)}"))
                     for g_i, g in enumerate(T["fields"]):
@@ -740,7 +784,7 @@ def oracle_case(B, ops, snap0, trace):
                 got = after.raw(t) if raw else after.log(t)
                 if got != T["reset"]:
                     cls = klass(B, t)
-                    why = (":" + alt_mechs(B, t, before, T["reset"], raw, post=after)) if "alt-widths" in cls else ""
+                    why = (":" + alt_label(B, t, T["reset"], raw, after.raw(t), after.log(t))) if "alt-widths" in cls else ""
                     here.append((f"reset-readback:{cls}{why}", f"{T['name']}.reset_value(raw={bool(raw)}) leaves {got}, reset value is {T['reset']}"))
             here += frame_checks(B, before, after, [t], k)
         if k == 6 and ok:
@@ -755,7 +799,7 @@ def oracle_case(B, ops, snap0, trace):
                 got = after.raw((i,))
                 if got != want:
                     cls = klass(B, (i,))
-                    why = (":" + alt_mechs(B, (i,), before, want, 1, post=after)) if "alt-widths" in cls else ""
+                    why = (":" + alt_label(B, (i,), want, 1, after.raw((i,)), after.log((i,)))) if "alt-widths" in cls else ""
                     here.append((f"parse-readback:{cls}{why}", f"parse: bytes at {lo}..{hi} are {want:#x}, {r['name']} reads {got}"))
         if k == 6 and not ok:
             here.append(("parse-raises", "parse of a byte string raised"))
@@ -775,7 +819,10 @@ def oracle_case(B, ops, snap0, trace):
                         if is_int(want) and got != want:
                             cls = klass(B, (i,))
                             if "alt-widths" in cls:
-                                cls += ":" + alt_mechs(B, (i,), None, None, 1, True, want)
+                                # the recorded outcome (C11-F4): the alt_width/8 bytes sit at the start of the big-endian slot
+                                a_ = alt_of(r["width"], r["alt"], want)
+                                exact = B["big"] and a_ < r["width"] and got == want << (r["width"] - a_)
+                                cls += ":" + (DEFECT_NAMES["F4"] if exact else "unexplained")
                             here.append((f"export-bytes:{cls}", f"export: bytes of {r['name']} decode to {got:#x}, its raw value is {want:#x}"))
         if k in (7, 18):
             if not ok:
@@ -789,7 +836,7 @@ def oracle_case(B, ops, snap0, trace):
                     if other.regs[i] != ref.regs[i]:
                         cls = klass(B, (i,))
                         if "alt-widths" in cls:
-                            cls += ":" + alt_mechs(B, (i,), before if k == 7 else fresh0, ref.raw((i,)), 1, True, ref.raw((i,)), post=other)
+                            cls += ":" + alt_label(B, (i,), ref.raw((i,)), 1, other.raw((i,)), other.log((i,)), export=True)
                         here.append((f"export-parse-roundtrip:{cls}", f"{name}: {r['name']} is {ref.regs[i][2:4]} before and {other.regs[i][2:4]} after the round trip"))
         if k == 16 and ok:
             stash_snap = after
@@ -814,10 +861,13 @@ def oracle_case(B, ops, snap0, trace):
                     if other.regs[i] != ref.regs[i]:
                         cls = klass(B, (i,)) + ("+diff" if diff else "") + ("+hexstring" if r["hex"] else "")
                         if "alt-widths" in cls:
-                            mech = alt_mechs(B, (i,), fresh0 if k == 19 else None, ref.log((i,)) if is_int(ref.log((i,))) else None, 0, post=other)
-                            if mech == "unexplained" and "reverse" in cls and other.log((i,)) == ref.log((i,)):
-                                # same value, another stored form: the reversal width depends on the magnitude of what was stored
-                                mech = "reversed-value-selects-another-width"
+                            x_ = ref.log((i,)) if is_int(ref.log((i,))) else None
+                            mech = alt_label(B, (i,), x_, 0, other.raw((i,)), other.log((i,)))
+                            if mech == "unexplained" and r["reverse"] and x_ is not None and other.log((i,)) == x_ \
+                                    and other.raw((i,)) == byterev(x_, alt_of(r["width"], r["alt"], x_) // 8) and ref.raw((i,)) != other.raw((i,)):
+                                # the value is restored exactly; only its stored form differs, because the reversal width depends
+                                # on the magnitude of what was stored (two stored forms of one value: C11-F1)
+                                mech = DEFECT_NAMES["F1"]
                             cls += ":" + mech
                         here.append((f"config-roundtrip:{cls}", f"{name}: {r['name']} is {ref.regs[i][2:4]}, after loading its own "
                                      f"configuration {other.regs[i][2:4]}"))
